@@ -415,11 +415,55 @@ class Gen:
         sep = self.pick([",", ", ", " ,", ","])
         return op + "(" + self.formula(labels, depth - 1) + sep + self.formula(labels, depth - 1) + ")"
 
-    ROTATION = ["ok", "garbage", "attack", "undeclared", "ok", "noac", "selfsup", "dupac", "ok", "acundeclared",
-                "ws", "dupstmt", "prestudy", "garbage", "ok", "chain"]
+    ROTATION = ["ok", "garbage", "attack", "undeclared", "wide", "noac", "selfsup", "dupac", "ok", "acundeclared",
+                "ws", "dupstmt", "wide", "prestudy", "chain", "garbage"]
+    WIDE_LABELS = ["a", "b", "d", "e", "f", "g", "h", "i", "j", "k", "l", "m", "n", "o", "p", "q", "10", "2", "11", "1",
+                   "TOP", "BOT", "and", "s", "ac", "x10", "x2"]
+
+    def wide_code(self):
+        """11-14 statements (statement indices "10", "11", ... occur): all but at most 4 statements are decided by
+        grounding (facts and short formulas over statements decided before), the others form a small undecided
+        core (attacks / self-support / dependence on the core), so that the brute-force specification stays small"""
+        r = self.r
+        n = r.randint(11, 14)
+        labels = r.sample(self.WIDE_LABELS, n)
+        u = r.randint(0, 4)
+        core = labels[:u]
+        rest = labels[u:]
+        acs = {}
+        decided = []
+        for l in rest:
+            if not decided or r.random() < 0.3:
+                f = self.pick(["c(v)", "c(f)"])
+            else:
+                f = self.formula(r.sample(decided, min(len(decided), 3)), r.randint(0, 2))
+            acs[l] = f
+            decided.append(l)
+        for i, l in enumerate(core):
+            others = [x for x in core if x != l]
+            kind = self.wpick([("attack", 4), ("self", 2), ("mixed", 3)])
+            if kind == "attack" and others:
+                f = "neg(%s)" % others[(i + 1) % len(others)] if len(others) > 1 else "neg(%s)" % others[0]
+            elif kind == "self" or not others:
+                f = self.pick([l, "neg(%s)" % l])
+            else:
+                f = self.formula(core + r.sample(decided, min(len(decided), 2)), 2)
+            acs[l] = f
+        order = list(labels)
+        r.shuffle(order)
+        # the core should often sit at the high indices, where the index strings have two digits
+        if core and r.random() < 0.6:
+            order = [x for x in order if x not in core] + core
+        stm = ["s(%s)." % l for l in order]
+        acl = ["ac(%s,%s)." % (l, acs[l]) for l in order]
+        if r.random() < 0.3:
+            r.shuffle(acl)
+        return "".join(stm + acl), n
 
     def adf_code(self, kind=None):
         r = self.r
+        if kind == "wide":
+            return self.wide_code()[0], "wide"
         n = r.randint(1, 6)
         pool = list(self.LABELS)
         if r.random() < 0.3:
@@ -481,7 +525,7 @@ class Gen:
         for pn in (["p1"] if r.random() < 0.6 else ["p1", "p2"]):
             code, kind = self.adf_code(forced)
             forced = None
-            parsing = self.pick(["Naive", "Hybrid"]) if k is None or pn != "p1" else ["Naive", "Hybrid"][(k // len(self.ROTATION)) % 2]
+            parsing = self.pick(["Naive", "Hybrid"]) if k is None or pn != "p1" else ["Naive", "Hybrid"][(k // 8) % 2]
             stats.append((kind, parsing))
             f = [("name", pn), ("file" if r.random() < 0.15 else "code", code), ("parsing", parsing)]
             out.append((0, "POST", "/adf/add", f))
